@@ -1,2 +1,64 @@
-(* C03 — placeholder until the proofs land. *)
-From Goag Require Import Model.Router Model.Serve Spec.RouterSpec Spec.ServeSpec.
+(* C03 — routing equals OpenAPI path matching under the server base path. *)
+From Coq Require Import List.
+Import ListNotations.
+From Goag Require Import Base.Str Model.Router Model.Serve Spec.RouterSpec Spec.ServeSpec
+     Proofs.RouterStrings Proofs.RouterTrie Proofs.RouterFinal Proofs.ServeProofs.
+
+(* For EVERY spec whose path templates are pairwise non-equivalent, every base
+   path form, every request path (any byte string) and every method: the
+   generated router (string slicing + route tree built by Route.add + base-path
+   prologue) returns exactly what OpenAPI path matching prescribes: the
+   pref_lt-least template that matches segment for segment beneath the
+   normalised base path and has an operation for the method; nothing
+   otherwise.  [cors_ok]: the CORS handler is installed or CORS is not enabled
+   (the nil-handler corner is C17's). *)
+Theorem C03_route_eq_match : forall (s : rspec) (cfg : api_cfg) (path m : str),
+  wf_rspec s -> cors_ok s cfg ->
+  route_root (c_cors cfg) (gen_base s) (gen_tree s) path m
+  = match_request (gen_templates s) (declared_base s) path m.
+Proof. exact gen_route_match. Qed.
+Print Assumptions C03_route_eq_match.
+
+(* the same statement for an arbitrary template set and base path *)
+Theorem C03_route_eq_match_templates : forall cors bp0 ts path m,
+  NoDup (map fst ts) -> (forall t it, In (t, it) ts -> t <> [] /\ tot cors it) ->
+  route_root cors (norm_base bp0) (build ts) path m = match_request ts bp0 path m.
+Proof. exact route_root_match. Qed.
+Print Assumptions C03_route_eq_match_templates.
+
+(* the executable reference matcher is the declarative relation: the chosen
+   template is a candidate strictly preferred to every other candidate; none is
+   chosen iff there is no candidate; and the relation determines its result *)
+Theorem C03_match_spec_ok : forall ts segs m,
+  NoDup (map fst ts) -> spec_ok ts segs m (match_spec ts segs m).
+Proof. exact match_spec_ok. Qed.
+Print Assumptions C03_match_spec_ok.
+
+Theorem C03_spec_unique : forall ts segs m r1 r2,
+  spec_ok ts segs m r1 -> spec_ok ts segs m r2 -> r1 = r2.
+Proof. exact spec_ok_unique. Qed.
+Print Assumptions C03_spec_unique.
+
+(* string level = segment level (where offset mistakes would live) *)
+Theorem C03_strings_segments : forall cors n segs m,
+  Forall noslash segs -> route cors n (enc segs) m = rsegs cors n segs m.
+Proof. exact route_strings_segments. Qed.
+Print Assumptions C03_strings_segments.
+
+(* a trailing slash on the base path is insignificant (definitionally: the
+   generator normalises exactly as the specification does) *)
+Theorem C03_base_trailing_slash : forall s, gen_base s = norm_base (declared_base s).
+Proof. exact gen_base_norm. Qed.
+Print Assumptions C03_base_trailing_slash.
+
+(* a trailing slash on the request path is significant *)
+Theorem C03_trailing_slash_significant : forall r, split_slash r <> split_slash (r ++ [slash]).
+Proof. exact trailing_slash_significant. Qed.
+Print Assumptions C03_trailing_slash_significant.
+
+(* the template reported for a dispatched request is a declared raw path *)
+Theorem C03_schema_path_declared : forall s t it,
+  In (t, it) (gen_templates s) ->
+  exists p, In p (s_paths s) /\ i_raw it = p_raw p /\ t = tmpl_of_raw (p_raw p).
+Proof. exact gen_item_raw. Qed.
+Print Assumptions C03_schema_path_declared.
